@@ -25,5 +25,6 @@ def check(ctx):
     canon.truncargs(ctx)
     canon.center_writes(ctx)
     canon.dmrg_protocol(ctx)
+    canon.scaling(ctx)
     ctx.floor("TRUNCARGS", 12)
     ctx.floor("CENTER", 8)
